@@ -140,25 +140,6 @@ structure TInv (s : Tok) : Prop where
   nonnegE : ∀ i, 0 ≤ s.escrow i
   conserved : held s = s.emission
 
-theorem touch_nodup {α} [DecidableEq α] (l : List α) (k : α) (h : l.Nodup) :
-    (touch l k).Nodup := by
-  unfold touch
-  split
-  · exact h
-  · rename_i hk; exact List.nodup_cons.mpr ⟨hk, h⟩
-
-theorem mem_touch {α} [DecidableEq α] (l : List α) (k x : α) :
-    x ∈ touch l k ↔ x = k ∨ x ∈ l := by
-  unfold touch
-  split
-  · rename_i hk
-    constructor
-    · intro h; exact Or.inr h
-    · rintro (h | h)
-      · subst h; exact hk
-      · exact h
-  · simp
-
 /-- updating one entry of a store whose support is covered by a duplicate-free log -/
 theorem sumOver_touch_upd {α} [DecidableEq α] (l : List α) (f : α → Int) (k : α) (v : Int)
     (hn : l.Nodup) (hc : ∀ x, f x ≠ 0 → x ∈ l) :
